@@ -146,6 +146,7 @@ impl GraphProp {
                             threads: full_pool(&g0),
                             sched: Sched::Prefix(vec![]),
                             needed: false,
+                            late: None,
                         };
                         let (runs, _capped) = dfs(&base, which, cap, &mut ctx.stats, &mut first_fail);
                         scope_runs += runs;
@@ -230,7 +231,10 @@ fn gen_sampled(which: Which) -> impl Fn(&mut Choices) -> GraphCase {
             let n = c.below(24);
             Sched::Stream((0..n).map(|_| c.raw()).collect())
         };
-        GraphCase { graph: g, inputs, recursive, stale: c.chance(1, 2), threads, sched, needed: c.chance(1, 4) }
+        let stale = c.chance(1, 2);
+        let needed = c.chance(1, 4);
+        let late = if which != Which::C05 && c.chance(1, 6) { Some(c.below(g.n)) } else { None };
+        GraphCase { graph: g, inputs, recursive, stale, threads, sched, needed, late }
     }
 }
 
@@ -297,6 +301,7 @@ impl Prop for GraphProp {
                     threads: full_pool(&g),
                     sched: Sched::Prefix(vec![]),
                     needed: r >> 61 & 3 == 0,
+                    late: None,
                 };
                 dfs(&base, which, 400, &mut ctx.stats, &mut first_fail);
                 if k % 8 == 0 {
@@ -345,6 +350,7 @@ impl Prop for GraphProp {
                     threads: full_pool(&g),
                     sched: Sched::Prefix(vec![]),
                     needed: bits >> 41 & 3 == 0,
+                    late: None,
                 };
                 dfs(&base, which, 600, &mut ctx.stats, &mut first_fail);
                 if first_fail.is_some() {
